@@ -81,6 +81,11 @@ def _alarm(signum, frame):
 
 def quiet_worker():
     warnings.simplefilter('ignore')
+    try:   # a worker never outlives the check that started it
+        import ctypes
+        ctypes.CDLL(None).prctl(1, 9)      # PR_SET_PDEATHSIG, SIGKILL
+    except Exception:
+        pass
     # coverage (used by pedal's 'coverage' tracer style) writes a data file in the cwd: give each worker its own
     covdir = os.path.join(HERE, '.work', 'cov_%s' % os.environ.get('VERIF_RUN_ID', '0'))
     os.makedirs(covdir, exist_ok=True)
@@ -126,6 +131,11 @@ def _judge_forked(mod, case, timeout):
         code = 0
         try:
             os.close(r)
+            try:   # the case dies with its worker (a worker that is terminated must not leave a spinning student thread behind)
+                import ctypes
+                ctypes.CDLL(None).prctl(1, 9)      # PR_SET_PDEATHSIG, SIGKILL
+            except Exception:
+                pass
             try:   # whatever the case writes to the real stdout must not reach the check's own output
                 devnull = os.open(os.devnull, os.O_WRONLY)
                 os.dup2(devnull, 1)
